@@ -9,6 +9,7 @@ from ..rules import where, path_actions, pickle_state_agreement, getstate_keys
 from ..loader import AnalysisError
 from ..staterules import state_roundtrip
 from ..interp import Interp, Hooks, Foreign, Arr, Obj, Unk, ClassRef, symarr, num, decide_with, count_atom
+from ..roundtrip import SuspectCtx
 
 EXPLANATION = (
     "(ALG-19) Source.from_ascii, as index arithmetic in normal form: n = int((len-3)/3) equals n when len = 3(n+1); name, x, y come from columns 0,1,2; "
@@ -339,6 +340,10 @@ def from_ascii_scenarios(ctx, repo, ci, fa):
                 ctx.ok('CFG-12', inst, where_, 'the flags, fluxes and errors cut from it have different lengths and a setter raises')
             elif isinstance(r, Unk):
                 ctx.undecided('CFG-12', inst, where_, 'not modelled: %r' % (r,)); verdict = verdict and False
+            elif I.lost or any(g[4] == 'raise-guard' and len(g) > 5 and isinstance(g[5], Arr) and 'len' in alg.leaf_syms(g[5].poly)[1] for g in I.assumed) \
+                    or any(isinstance(v_, Unk) or (isinstance(v_, Arr) and v_.ndim == 1 and v_.dims[0] is not None and v_.dims[0] not in I.axis_len) for v_ in r.attrs.values()):
+                # the line went through, but past a length test the analysis could not decide (an array whose length is not known here): no verdict
+                ctx.undecided('CFG-12', inst, where_, 'a length check on the way was not decided (the lengths of the arrays cut from the line are not all known)'); verdict = verdict and False
             else:
                 ctx.violation('CFG-12', inst, where_, 'a line with %d surplus column%s is parsed into a source instead of being refused' % (ntok % 3, '' if ntok % 3 == 1 else 's'), 'bounded-slice')
                 verdict = 'violation'
